@@ -380,6 +380,10 @@ func C11(tier string) int {
 	ops = append(ops,
 		SOp{Kind: "atts", Ents: []Ent{{Key: 0, S: 0, T: 1, Root: 1}, {Key: 1, S: 1, T: 2, Root: 1}}},
 		SOp{Kind: "atts", Ents: []Ent{{Key: 1, S: 0, T: 1, Root: 1}, {Key: 0, S: 2, T: 3, Root: 1}}},
+		// Batches with an entry that is refused (source beyond target): the batch path writes back the state of every
+		// entry, so a key that never attested gets a record that says so.
+		SOp{Kind: "atts", Ents: []Ent{{Key: 0, S: 3, T: 1, Root: 1}, {Key: 1, S: 0, T: 1, Root: 1}}},
+		SOp{Kind: "atts", Ents: []Ent{{Key: 1, S: 1, T: 2, Root: 1}, {Key: 0, S: 3, T: 1, Root: 1}}},
 	)
 	var mu sync.Mutex
 	var states []c11State
